@@ -3,6 +3,9 @@
 (*   Case, then the steps of Order(class) - Create, DcLayout, DcFields, DcKeys, SpsdkParse, CheckDcSignature,    *)
 (*   CheckRotHash, Dac, Respond, DarLayout, DarFields, CheckResponseSignature [, Deliver] -,                     *)
 (*   then (Attempt | History | Tamper)*, Done.                                                                   *)
+(* Lane "slots" (Case.lane): the RoT key list of the case has slots sharing a key (Case.pat, Case.given); the     *)
+(*   trace is the fixed part only - up to CheckRotHash (container version 2, where the SRK table travels in the   *)
+(*   response: the whole fixed part).                                                                            *)
 (* Lane "cred" (Case.lane): Case, then histories of ONE credential object each - CredNew, (CredSign | CredSet | *)
 (*   CredExport | CredParse)* - , Done: the object model of DatTerms is stepped along the logged operations.     *)
 (* The harness drives SPSDK (the host) and the device twin (independent parser / verifier); every number it logs *)
@@ -20,6 +23,8 @@ N == cs.nkeys
 C == cs.cls
 Order(cls) ==
   IF cs.lane = "cred" THEN <<>>            \* the credential-object lane has no fixed part
+  ELSE IF cs.lane = "slots" /\ cls # "ele2"
+    THEN <<"Create", "DcLayout", "DcFields", "DcKeys", "SpsdkParse", "CheckDcSignature", "CheckRotHash">>
   ELSE IF cls = "ele2"
     THEN <<"Create", "DcLayout", "DcFields", "DcKeys", "SpsdkParse", "CheckDcSignature", "Dac", "Respond", "DarLayout", "DarFields",
            "CheckRotHash", "CheckResponseSignature", "Deliver">>
@@ -40,7 +45,10 @@ TInit == /\ tid \in 1..Len(Traces) /\ l = 1 /\ pos = Start /\ cs = [cls |-> "non
 TCase == /\ l <= Len(T) /\ E.e = "Case" /\ pos = Start /\ Len(E.ver) = 2 /\ ValidCase(E.cls, <<E.ver[1], E.ver[2]>>, E.nkeys, E.used)
          /\ ValidShape(<<E.ver[1], E.ver[2]>>, E.nkeys, E.lz, E.coord)
          /\ ShapesFit(<<E.ver[1], E.ver[2]>>, E.nkeys, E.used, E.lz, E.coord, E.shapes)      \* the keys of the run have the shape the case asks for
-         /\ {E.skip[i] : i \in 1..Len(E.skip)} \subseteq Skippable /\ E.lane \in {"main", "cred"}
+         /\ ValidSlots(E.nkeys, E.pat, E.given) /\ (E.given # "-" => E.lz = "none")
+         /\ SlotsFit(E.nkeys, E.pat, E.given, E.slots)                  \* the key files of the run share keys / paths exactly as the case says
+         /\ {E.skip[i] : i \in 1..Len(E.skip)} \subseteq Skippable /\ E.lane \in {"main", "cred", "slots"}
+         /\ (E.given # "-" => E.lane = "slots")
          /\ cs' = E /\ UNCHANGED <<inp, tid, ob>> /\ l' = l + 1 /\ pos' = 0
 \* a step listed in Case.skip may be absent
 TSkip == /\ pos >= 0 /\ pos < Len(Ord) /\ \E i \in 1..Len(cs.skip) : cs.skip[i] = Ord[pos + 1]
@@ -60,9 +68,9 @@ FieldsEqual(o) == /\ o.socc = inp.socc /\ o.uuid = inp.uuid /\ o.socu = inp.socu
                      ELSE /\ o.ver = cs.ver /\ o.vu = inp.vu /\ o.nkeys = N
                           /\ (~(C = "classic" /\ IsRsa(V)) => o.used = cs.used)       \* an RSA credential has no index field
 TDcFields == Is("DcFields") /\ FieldsEqual(E.out) /\ E.flagsOk /\ Keep /\ Adv
-\* ... the embedded RoT key is the key the configuration names, the debug key is the configured one, every table entry
-\* is the hash of its key (facts computed by the twin from the key files)
-TDcKeys == /\ Is("DcKeys") /\ E.rotIdx = cs.used /\ E.dckOk /\ (RotHashDefined(V) \/ C = "ele2" => E.tableOk)
+\* ... the embedded RoT key is the key the configuration names (rotIdx: the first slot whose key file holds the embedded key), the debug
+\* key is the configured one, every table entry is the hash of the key of ITS slot (facts computed by the twin from the key files)
+TDcKeys == /\ Is("DcKeys") /\ E.rotIdx = FirstSlot(cs.pat, cs.used) /\ E.dckOk /\ (RotHashDefined(V) \/ C = "ele2" => E.tableOk)
            /\ Keep /\ Adv
 \* ... and with SPSDK's own parser
 \* (ele2: SPSDK's == also compares how the uuid was spelled in the configuration; the property is about field values)
@@ -76,7 +84,14 @@ TCheckDcSignature == /\ Is("CheckDcSignature")
 \* reports (dc: the created object, dc2: the object parsed back) = image tools (tools: RoT calculator of the family; tools2:
 \* certificate block v2.1 built over the same keys)
 \* (ele2: the SRK table travels in the response; the credential object has no RoT hash: dc = "n/a")
-TCheckRotHash == /\ Is("CheckRotHash")
+\* entries = what the hashed structure of the credential holds per slot (read from the bytes): one entry per slot of the RoT term, equal
+\* exactly where the term's entries are equal - the root of trust is the LIST of slots, also when slots share a key
+\* (ele2: every SRK record commits to its own slot number, so no two entries of the table are equal whatever the keys)
+RotKind == IF C \in {"ele1", "ele2"} THEN "srk" ELSE IF IsRsa(V) THEN "rsa" ELSE "ecc"
+EntriesFit(entries) == LET t == RotHashTerm(RotKind, cs.pat) IN
+                       /\ Len(entries) = Len(t.over)
+                       /\ PatternOf(entries) = (IF C = "ele2" THEN AllDistinct(4) ELSE PatternOf(t.over))
+TCheckRotHash == /\ Is("CheckRotHash") /\ EntriesFit(E.entries)
                  /\ (RotHashDefined(V) \/ C = "ele2" => /\ E.fromBytes = E.ref /\ E.tools \in {"n/a", E.ref} /\ E.tools2 \in {"n/a", E.ref} /\ E.dc2 \in {"n/a", E.ref}
                                                         /\ (IF C = "ele2" THEN E.dc = "n/a" ELSE E.dc = E.ref))
                  /\ Keep /\ Adv
@@ -162,7 +177,7 @@ TCredSet == /\ CredLane /\ E.e = "CredSet" /\ ob.alive /\ E.f \in Settable
 ExportClause(o) ==
                 /\ E.walk /\ E.fields = DcTable(C, V, N) /\ E.end = DcLen(C, V, N) /\ E.len = E.end
                 /\ CredFieldsEqual(E.out, o.cur) /\ E.flagsOk
-                /\ E.rotIdx = cs.used /\ (RotHashDefined(V) \/ C = "ele2" => E.tableOk)
+                /\ E.rotIdx = FirstSlot(cs.pat, cs.used) /\ (RotHashDefined(V) \/ C = "ele2" => E.tableOk)
                 /\ E.from = 0 /\ E.to = DcSigAt(C, V, N) /\ E.sigAt = DcSigAt(C, V, N) /\ E.sigLen = SigLen(V)
                 /\ E.sigOk = CheckDcSignature(CredOnWire(o))
 TCredExport == /\ CredLane /\ E.e = "CredExport" /\ ob.alive
